@@ -9,7 +9,8 @@
 (*          nph  : 1..2,                  a second placeholder `{1}`       *)
 (*          ref  : "next","pos0","pos1","pos2","name_field","name_other",  *)
 (*          ty   : one of the 11 format types,                             *)
-(*          mod  : "none","ws","width","fill","left","center","right",     *)
+(*          mod  : "none","ws" (`{x }`),"colon" (`{x:}`),"colon_ws"        *)
+(*                 (`{x: }`),"width","fill","left","center","right",       *)
 (*                 "sign" (+),"minus" (-),"alt","zero","prec"]             *)
 (*   args \in {"none","pos_field","pos_expr","named_match","named_nomatch",*)
 (*             "two"}                                                      *)
@@ -46,7 +47,9 @@ SecondOk(lit, args) == lit.nph = 2 => NArgs(args) = 2
 
 RustcAccepts(lit, args) == Denotes(lit, args) # "error" /\ AllUsed(lit, args) /\ SecondOk(lit, args)
 
-Bare(lit) == lit.nph = 1 /\ ~lit.pre /\ ~lit.post /\ lit.mod \in {"none", "ws"}
+\* spellings of "no modifier at all": nothing, trailing whitespace, an empty format spec, both
+Blank == {"none", "ws", "colon", "colon_ws"}
+Bare(lit) == lit.nph = 1 /\ ~lit.pre /\ ~lit.post /\ lit.mod \in Blank
              /\ lit.ty \notin {"LowerDebug", "UpperDebug"}
 
 (***************************************************************************)
